@@ -1321,3 +1321,517 @@ Section Big.
     - destruct (N.ltb_spec 520 (nlen pk)); [|lia]. reflexivity.
   Qed.
 End Big.
+
+(* ------------------------------------------------------------------ builder histories *)
+Lemma input_args_eq : forall i, input_args i = args_of i.
+Proof. reflexivity. Qed.
+
+Definition outpt (p : pre_in) : N * N := (pi_txid p, pi_vout p).
+Definition in_outpt (i : input) : N * N := (u_txid (in_utxo i), u_vout (in_utxo i)).
+
+Lemma outpt_pre_of : forall i, outpt (pre_of i) = in_outpt i.
+Proof. intro i. unfold outpt, pre_of, in_outpt. destruct (in_kind_ i); reflexivity. Qed.
+
+Lemma skel_ins_of_inputs : forall (l : list pre_in) (l' : list input),
+    map outpt l = map in_outpt l' ->
+    map (fun i => {| ti_txid := pi_txid i; ti_vout := pi_vout i; ti_seq := max_seq |}) l =
+    map (fun i => {| ti_txid := u_txid (in_utxo i); ti_vout := u_vout (in_utxo i);
+                     ti_seq := max_seq |}) l'.
+Proof.
+  induction l as [|p l IH]; destruct l' as [|i l']; cbn; intro H; try discriminate; [reflexivity|].
+  inversion H as [[H1 H2 H3]]. rewrite H1, H2. f_equal. auto.
+Qed.
+
+Lemma skel_ins_of_pre : forall (l l' : list pre_in),
+    map outpt l = map outpt l' ->
+    map (fun i => {| ti_txid := pi_txid i; ti_vout := pi_vout i; ti_seq := max_seq |}) l =
+    map (fun i => {| ti_txid := pi_txid i; ti_vout := pi_vout i; ti_seq := max_seq |}) l'.
+Proof.
+  induction l as [|p l IH]; destruct l' as [|i l']; cbn; intro H; try discriminate; [reflexivity|].
+  inversion H as [[H1 H2 H3]]. rewrite H1, H2. f_equal. auto.
+Qed.
+
+(* what every reachable builder state satisfies w.r.t. the transaction assembled so far *)
+Definition hinv (b : builder) (ins : list input) (outs : list (Z * bytes)) : Prop :=
+  map outpt (b_ins b) = map in_outpt ins /\ b_args b = map input_args ins /\ b_outs b = outs.
+
+Lemma hinv_skeleton : forall b ins outs, hinv b ins outs -> skeleton b = tx_of ins outs.
+Proof.
+  intros b ins outs (H1&H2&H3). unfold skeleton, tx_of. rewrite H3.
+  rewrite (skel_ins_of_inputs _ _ H1). reflexivity.
+Qed.
+
+Lemma add_input_accepted : forall b i,
+    match add_input b i with
+    | Some _ => input_accepted i = true
+    | None => input_accepted i = false
+    end.
+Proof.
+  intros b i. unfold input_accepted, add_input, add_pkh_input, add_sh_input.
+  destruct (in_kind_ i); destruct (classify (in_script i)); reflexivity.
+Qed.
+
+Lemma compute_hashes_fields : forall b b', compute_hashes b = Some b' ->
+    b_ins b' = b_ins b /\ b_args b' = b_args b /\ b_outs b' = b_outs b /\
+    hashes_from (skeleton b) 0 (b_args b) = Some (b_hashes b').
+Proof.
+  intros b b' H. unfold compute_hashes in H.
+  destruct (hashes_from (skeleton b) 0 (b_args b)) as [hs|]; [|discriminate].
+  inversion H; subst. cbn. auto.
+Qed.
+
+Section HistoryLemmas.
+  Variable sigT : Type.
+  Variable der : sigT -> bytes.
+  Variable ecdsa_verify : bytes -> sighash -> sigT -> bool.
+  Notation hop := (hop sigT).
+  Notation sign_mut := (sign_mut sigT der ecdsa_verify).
+  Notation add_signatures_h := (add_signatures_h sigT der ecdsa_verify).
+  Notation hstep := (hstep sigT der ecdsa_verify).
+  Notation hrun := (hrun sigT der ecdsa_verify).
+  Notation hist_ins := (@hist_ins sigT).
+  Notation hist_outs := (@hist_outs sigT).
+
+  Lemma as_signed_signed_pre : forall p si, as_signed (signed_pre p si) = si.
+  Proof. intros p [s w]. reflexivity. Qed.
+
+  Lemma sign_mut_outpt : forall ins args hs sigs,
+      map outpt (fst (sign_mut ins args hs sigs)) = map outpt ins.
+  Proof.
+    induction ins as [|p ins IH]; intros args hs sigs; [reflexivity|].
+    cbn [C27.sign_mut]. destruct args as [|a args]; [reflexivity|].
+    destruct sigs as [|[sg pk] sigs]; [reflexivity|]. destruct hs as [|h hs]; [reflexivity|].
+    destruct (sign_input sigT der ecdsa_verify p a h sg pk) as [si|]; [|reflexivity].
+    specialize (IH args hs sigs). destruct (sign_mut ins args hs sigs) as [r f]. cbn in *.
+    now rewrite IH.
+  Qed.
+
+  Lemma sign_mut_done : forall ins args hs sigs ins',
+      sign_mut ins args hs sigs = (ins', FDone) ->
+      sign_inputs sigT der ecdsa_verify ins args hs sigs = Some (map as_signed ins').
+  Proof.
+    induction ins as [|p ins IH]; intros args hs sigs ins' H.
+    - cbn in H. inversion H; subst. reflexivity.
+    - cbn [C27.sign_mut] in H. cbn [C27.sign_inputs].
+      destruct args as [|a args]; [discriminate|].
+      destruct sigs as [|[sg pk] sigs]; [discriminate|]. destruct hs as [|h hs]; [discriminate|].
+      destruct (sign_input sigT der ecdsa_verify p a h sg pk) as [si|]; [|discriminate].
+      destruct (sign_mut ins args hs sigs) as [r f] eqn:R. inversion H; subst.
+      rewrite (IH _ _ _ _ R). cbn. now rewrite as_signed_signed_pre.
+  Qed.
+
+  Lemma sign_mut_done_len : forall ins args hs sigs ins',
+      sign_mut ins args hs sigs = (ins', FDone) -> (length ins <= length hs)%nat.
+  Proof.
+    induction ins as [|p ins IH]; intros args hs sigs ins' H; [cbn; lia|].
+    cbn [C27.sign_mut] in H.
+    destruct args as [|a args]; [discriminate|].
+    destruct sigs as [|[sg pk] sigs]; [discriminate|]. destruct hs as [|h hs]; [discriminate|].
+    destruct (sign_input sigT der ecdsa_verify p a h sg pk) as [si|]; [|discriminate].
+    destruct (sign_mut ins args hs sigs) as [r f] eqn:R. inversion H; subst.
+    apply IH in R. cbn. lia.
+  Qed.
+
+  (* AddSignatures on the state record: fields *)
+  Lemma add_signatures_h_fields : forall b sigs b' r, add_signatures_h b sigs = (b', r) ->
+      map outpt (b_ins b') = map outpt (b_ins b) /\ b_args b' = b_args b /\
+      b_outs b' = b_outs b /\ b_hashes b' = b_hashes b.
+  Proof.
+    intros b sigs b' r H. unfold C27.add_signatures_h in H.
+    destruct (b_hashes b) as [|h0 hs] eqn:Eh; [inversion H; subst; auto|].
+    destruct (negb (length sigs =? length (b_ins b))%nat); [inversion H; subst; auto|].
+    pose proof (sign_mut_outpt (b_ins b) (b_args b) (h0 :: hs) sigs) as O.
+    destruct (sign_mut (b_ins b) (b_args b) (h0 :: hs) sigs) as [ins' f].
+    inversion H; subst. cbn in *. auto.
+  Qed.
+
+  (* a produced transaction is the one the pure [add_signatures] describes *)
+  Lemma add_signatures_h_tx : forall b sigs b' tx, add_signatures_h b sigs = (b', RTx tx) ->
+      add_signatures sigT der ecdsa_verify b sigs = Some tx.
+  Proof.
+    intros b sigs b' tx H. unfold C27.add_signatures_h in H. unfold add_signatures.
+    destruct (b_hashes b) as [|h0 hs] eqn:Eh; [discriminate|].
+    destruct (negb (length sigs =? length (b_ins b))%nat); [discriminate|].
+    pose proof (sign_mut_outpt (b_ins b) (b_args b) (h0 :: hs) sigs) as O.
+    destruct (sign_mut (b_ins b) (b_args b) (h0 :: hs) sigs) as [ins' f] eqn:R.
+    destruct f; inversion H; subst. rewrite (sign_mut_done _ _ _ _ _ R). cbn. do 2 f_equal.
+    unfold skeleton. cbn. f_equal. apply skel_ins_of_pre. cbn in O. now rewrite O.
+  Qed.
+
+  Lemma add_signatures_h_tx_len : forall b sigs b' tx, add_signatures_h b sigs = (b', RTx tx) ->
+      (length (b_ins b) <= length (b_hashes b))%nat.
+  Proof.
+    intros b sigs b' tx H. unfold C27.add_signatures_h in H.
+    destruct (b_hashes b) as [|h0 hs] eqn:Eh; [discriminate|].
+    destruct (negb (length sigs =? length (b_ins b))%nat); [discriminate|].
+    destruct (sign_mut (b_ins b) (b_args b) (h0 :: hs) sigs) as [ins' f] eqn:R.
+    destruct f; inversion H; subst. exact (sign_mut_done_len _ _ _ _ _ R).
+  Qed.
+
+  Definition op_ins (o : hop) : list input :=
+    match o with HAddIn i => if input_accepted i then [i] else [] | _ => [] end.
+  Definition op_outs (o : hop) : list (Z * bytes) :=
+    match o with HAddOut v s => [(v, s)] | _ => [] end.
+
+  Lemma hist_ins_cons : forall o t, hist_ins (o :: t) = op_ins o ++ hist_ins t.
+  Proof. intros [i|v s| |sg] t; cbn; [destruct (input_accepted i)|..]; reflexivity. Qed.
+  Lemma hist_outs_cons : forall o t, hist_outs (o :: t) = op_outs o ++ hist_outs t.
+  Proof. intros [i|v s| |sg] t; reflexivity. Qed.
+
+  Lemma hstep_inv : forall b o b' r ins outs, hinv b ins outs -> hstep b o = (b', r) ->
+      hinv b' (ins ++ op_ins o) (outs ++ op_outs o).
+  Proof.
+    intros b o b' r ins outs (H1&H2&H3) H. destruct o as [i|v s| |sg]; cbn in H |- *.
+    - pose proof (add_input_accepted b i) as A.
+      destruct (add_input b i) as [b1|] eqn:E; injection H as <- <-; rewrite A.
+      + apply add_input_shape in E as (E1&E2&E3&E4). unfold hinv.
+        rewrite E1, E2, E3, !map_app, H1, H2, H3. cbn. rewrite outpt_pre_of, app_nil_r. auto.
+      + rewrite !app_nil_r. unfold hinv. auto.
+    - injection H as <- <-. rewrite app_nil_r. unfold hinv. cbn. rewrite H1, H2, H3. auto.
+    - rewrite !app_nil_r.
+      destruct (compute_hashes b) as [b1|] eqn:E; injection H as <- <-; [|unfold hinv; auto].
+      apply compute_hashes_fields in E as (E1&E2&E3&_). unfold hinv. rewrite E1, E2, E3. auto.
+    - rewrite !app_nil_r. apply add_signatures_h_fields in H as (E1&E2&E3&_).
+      unfold hinv. rewrite E1, E2, E3. auto.
+  Qed.
+
+  Lemma hrun_inv : forall ops b ins outs b' rs, hinv b ins outs -> hrun b ops = (b', rs) ->
+      hinv b' (ins ++ hist_ins ops) (outs ++ hist_outs ops) /\ length rs = length ops.
+  Proof.
+    induction ops as [|o ops IH]; intros b ins outs b' rs I H.
+    - cbn in H. inversion H; subst. cbn. rewrite !app_nil_r. auto.
+    - cbn [C27.hrun] in H. destruct (hstep b o) as [b1 r] eqn:E.
+      destruct (hrun b1 ops) as [b2 rs'] eqn:R. inversion H; subst.
+      destruct (IH _ _ _ _ _ (hstep_inv _ _ _ _ _ _ I E) R) as [J L].
+      rewrite hist_ins_cons, hist_outs_cons, !app_assoc. split; [exact J|cbn; lia].
+  Qed.
+
+  (* the result of ComputeSignatureHashes in a state that holds the transaction (ins, outs) *)
+  Lemma hstep_compute : forall b ins outs, hinv b ins outs ->
+      snd (hstep b HCompute) = match tx_sighashes ins outs with
+                               | Some hs => RHashes hs
+                               | None => RHashErr
+                               end.
+  Proof.
+    intros b ins outs I. pose proof (hinv_skeleton _ _ _ I) as S. destruct I as (_&H2&_).
+    cbn. unfold compute_hashes, tx_sighashes. rewrite S, H2.
+    destruct (hashes_from (tx_of ins outs) 0 (map input_args ins)); reflexivity.
+  Qed.
+
+  Lemma hrun_compute : forall pre post b ins outs b' rs, hinv b ins outs ->
+      hrun b (pre ++ HCompute :: post) = (b', rs) ->
+      nth_error rs (length pre) =
+      Some (match tx_sighashes (ins ++ hist_ins pre) (outs ++ hist_outs pre) with
+            | Some hs => RHashes hs
+            | None => RHashErr
+            end).
+  Proof.
+    induction pre as [|o pre IH]; intros post b ins outs b' rs I H.
+    - cbn [app] in H. cbn [C27.hrun] in H. pose proof (hstep_compute _ _ _ I) as C.
+      destruct (hstep b HCompute) as [b1 r]. destruct (hrun b1 post) as [b2 rs'].
+      inversion H; subst. cbn in C |- *. rewrite !app_nil_r. now rewrite C.
+    - cbn [app] in H. cbn [C27.hrun] in H. destruct (hstep b o) as [b1 r] eqn:E.
+      destruct (hrun b1 (pre ++ HCompute :: post)) as [b2 rs'] eqn:R. inversion H; subst.
+      cbn [length nth_error]. rewrite (IH _ _ _ _ _ _ (hstep_inv _ _ _ _ _ _ I E) R).
+      now rewrite hist_ins_cons, hist_outs_cons, !app_assoc.
+  Qed.
+
+  Lemma hinv_new : hinv new_builder [] [].
+  Proof. unfold hinv. auto. Qed.
+
+  (* EVERY ComputeSignatureHashes call of EVERY history returns exactly the signature hashes of
+     the transaction as it is at that call: no fragment of an earlier computation survives *)
+  Theorem history_sighashes_fresh : forall (pre post : list hop) b rs,
+      hrun new_builder (pre ++ HCompute :: post) = (b, rs) ->
+      nth_error rs (length pre) =
+      Some (match tx_sighashes (hist_ins pre) (hist_outs pre) with
+            | Some hs => RHashes hs
+            | None => RHashErr
+            end).
+  Proof. intros pre post b rs H. exact (hrun_compute _ _ _ _ _ _ _ hinv_new H). Qed.
+
+  Lemma hrun_app : forall a c b,
+      hrun b (a ++ c) = let (b1, r1) := hrun b a in let (b2, r2) := hrun b1 c in (b2, r1 ++ r2).
+  Proof.
+    induction a as [|o a IH]; intros c b.
+    - cbn. destruct (hrun b c); reflexivity.
+    - cbn [app C27.hrun]. destruct (hstep b o) as [b1 r]. rewrite IH.
+      destruct (hrun b1 a) as [b2 r1]. destruct (hrun b2 c) as [b3 r2]. reflexivity.
+  Qed.
+
+  Lemma hrun_length : forall ops b b' rs, hrun b ops = (b', rs) -> length rs = length ops.
+  Proof.
+    induction ops as [|o ops IH]; intros b b' rs H.
+    - cbn in H. inversion H; subst. reflexivity.
+    - cbn [C27.hrun] in H. destruct (hstep b o) as [b1 r] eqn:E.
+      destruct (hrun b1 ops) as [b2 rs'] eqn:R. inversion H; subst. cbn. f_equal. eauto.
+  Qed.
+
+  (* ---- lengths: the stored hashes never outnumber the inputs ---- *)
+  Definition linv (b : builder) : Prop :=
+    length (b_args b) = length (b_ins b) /\ (length (b_hashes b) <= length (b_ins b))%nat.
+
+  Lemma hstep_len : forall b o b' r, linv b -> hstep b o = (b', r) ->
+      linv b' /\
+      length (b_ins b') = (length (b_ins b) + length (op_ins o))%nat /\
+      (is_compute sigT o = false -> b_hashes b' = b_hashes b).
+  Proof.
+    intros b o b' r [L1 L2] H. destruct o as [i|v s| |sg]; cbn in H.
+    - pose proof (add_input_accepted b i) as A. cbn [op_ins].
+      destruct (add_input b i) as [b1|] eqn:E; injection H as <- <-; rewrite A.
+      + apply add_input_shape in E as (E1&E2&E3&E4). unfold linv.
+        rewrite E1, E2, E4, !app_length. cbn. repeat split; auto; lia.
+      + unfold linv. cbn. repeat split; auto; lia.
+    - injection H as <- <-. unfold linv. cbn. repeat split; auto; lia.
+    - destruct (compute_hashes b) as [b1|] eqn:E; injection H as <- <-; cbn.
+      + apply compute_hashes_fields in E as (E1&E2&E3&E4). apply hashes_from_length in E4.
+        unfold linv. rewrite E1, E2, E4. repeat split; try discriminate; lia.
+      + unfold linv. repeat split; auto; lia.
+    - apply add_signatures_h_fields in H as (E1&E2&E3&E4).
+      assert (E : length (b_ins b') = length (b_ins b)).
+      { rewrite <- (map_length outpt (b_ins b')), E1. apply map_length. }
+      unfold linv. rewrite E2, E4, E. cbn. repeat split; auto; lia.
+  Qed.
+
+  Lemma hrun_len : forall ops b b' rs, linv b -> hrun b ops = (b', rs) -> linv b'.
+  Proof.
+    induction ops as [|o ops IH]; intros b b' rs L H.
+    - cbn in H. inversion H; subst. exact L.
+    - cbn [C27.hrun] in H. destruct (hstep b o) as [b1 r] eqn:E.
+      destruct (hrun b1 ops) as [b2 rs'] eqn:R. inversion H; subst.
+      destruct (hstep_len _ _ _ _ L E) as [L' _]. eauto.
+  Qed.
+
+  Lemma hrun_no_compute : forall ops b b' rs, linv b ->
+      Forall (fun o => is_compute sigT o = false) ops -> hrun b ops = (b', rs) ->
+      linv b' /\ b_hashes b' = b_hashes b /\
+      length (b_ins b') = (length (b_ins b) + length (hist_ins ops))%nat.
+  Proof.
+    induction ops as [|o ops IH]; intros b b' rs L F H.
+    - cbn in H. inversion H; subst. cbn. repeat split; try apply L; lia.
+    - cbn [C27.hrun] in H. destruct (hstep b o) as [b1 r] eqn:E.
+      destruct (hrun b1 ops) as [b2 rs'] eqn:R. inversion H; subst.
+      inversion F as [|? ? Fo Fr]; subst.
+      destruct (hstep_len _ _ _ _ L E) as (L'&N&K).
+      destruct (IH _ _ _ L' Fr R) as (L''&K'&N').
+      rewrite hist_ins_cons, app_length. repeat split; try apply L''.
+      + rewrite K'. auto.
+      + lia.
+  Qed.
+
+  Lemma linv_new : linv new_builder.
+  Proof. unfold linv. cbn. lia. Qed.
+
+  (* an input accepted after the last ComputeSignatureHashes: AddSignatures produces NO
+     transaction, whatever the signatures are (it refuses, or - the count being right and all
+     earlier signatures valid - indexes the stored hashes out of range) *)
+  Theorem input_after_computation_no_tx : forall (pre mid : list hop) sigs b rs,
+      Forall (fun o => is_compute sigT o = false) mid ->
+      hist_ins mid <> [] ->
+      hrun new_builder (pre ++ mid ++ [HSign sigs]) = (b, rs) ->
+      exists r, nth_error rs (length pre + length mid) = Some r /\ forall tx, r <> RTx tx.
+  Proof.
+    intros pre mid sigs b rs F NE H.
+    rewrite hrun_app in H. destruct (hrun new_builder pre) as [b1 r1] eqn:R1.
+    rewrite hrun_app in H. destruct (hrun b1 mid) as [b2 r2] eqn:R2.
+    cbn [C27.hrun C27.hstep] in H.
+    destruct (add_signatures_h b2 sigs) as [b3 r] eqn:A. inversion H; subst.
+    pose proof (hrun_len _ _ _ _ linv_new R1) as L1.
+    destruct (hrun_no_compute _ _ _ _ L1 F R2) as (L2&K&N).
+    pose proof (hrun_length _ _ _ _ R1) as Len1.
+    pose proof (hrun_length _ _ _ _ R2) as Len2.
+    exists r. split.
+    - rewrite app_assoc, nth_error_app2 by (rewrite app_length; lia).
+      rewrite app_length, Len1, Len2, Nat.sub_diag. reflexivity.
+    - intros tx ->. apply add_signatures_h_tx_len in A. destruct L1 as [_ L1].
+      rewrite K in A. destruct (hist_ins mid); [congruence|]. cbn in N. lia.
+  Qed.
+End HistoryLemmas.
+
+(* ---- histories without an earlier AddSignatures: the inputs are as Add*Input left them ---- *)
+Lemma builder_eta : forall b b', b_ins b = b_ins b' -> b_args b = b_args b' ->
+    b_outs b = b_outs b' -> b_hashes b = b_hashes b' -> b = b'.
+Proof. intros [a1 a2 a3 a4] [c1 c2 c3 c4]; cbn; intros; subst; reflexivity. Qed.
+
+Definition hinv' (b : builder) (ins : list input) (outs : list (Z * bytes)) : Prop :=
+  b_ins b = map pre_of ins /\ b_args b = map args_of ins /\ b_outs b = outs.
+
+Lemma hinv'_hinv : forall b ins outs, hinv' b ins outs -> hinv b ins outs.
+Proof.
+  intros b ins outs (H1&H2&H3). unfold hinv. rewrite H1, H2, H3, map_map. repeat split.
+  apply map_ext. apply outpt_pre_of.
+Qed.
+
+Section HistoryNoSign.
+  Variable sigT : Type.
+  Variable der : sigT -> bytes.
+  Variable ecdsa_verify : bytes -> sighash -> sigT -> bool.
+  Notation hop := (hop sigT).
+  Notation hstep := (hstep sigT der ecdsa_verify).
+  Notation hrun := (hrun sigT der ecdsa_verify).
+
+  Lemma hstep_nosign_inv : forall b (o : hop) b' r ins outs, is_sign sigT o = false ->
+      hinv' b ins outs -> hstep b o = (b', r) ->
+      hinv' b' (ins ++ op_ins sigT o) (outs ++ op_outs sigT o).
+  Proof.
+    intros b o b' r ins outs NS (H1&H2&H3) H. destruct o as [i|v s| |sg]; cbn in H |- *.
+    - pose proof (add_input_accepted b i) as A.
+      destruct (add_input b i) as [b1|] eqn:E; injection H as <- <-; rewrite A.
+      + apply add_input_shape in E as (E1&E2&E3&E4). unfold hinv'.
+        rewrite E1, E2, E3, !map_app, H1, H2, H3. cbn. rewrite app_nil_r. auto.
+      + rewrite !app_nil_r. unfold hinv'. auto.
+    - injection H as <- <-. rewrite app_nil_r. unfold hinv'. cbn. rewrite H1, H2, H3. auto.
+    - rewrite !app_nil_r.
+      destruct (compute_hashes b) as [b1|] eqn:E; injection H as <- <-; [|unfold hinv'; auto].
+      apply compute_hashes_fields in E as (E1&E2&E3&_). unfold hinv'. rewrite E1, E2, E3. auto.
+    - discriminate.
+  Qed.
+
+  Lemma hrun_nosign_inv : forall (ops : list hop) b ins outs b' rs,
+      Forall (fun o => is_sign sigT o = false) ops -> hinv' b ins outs ->
+      hrun b ops = (b', rs) ->
+      hinv' b' (ins ++ hist_ins sigT ops) (outs ++ hist_outs sigT ops).
+  Proof.
+    induction ops as [|o ops IH]; intros b ins outs b' rs F I H.
+    - cbn in H. injection H as <- <-. cbn. now rewrite !app_nil_r.
+    - cbn [C27.hrun] in H. destruct (hstep b o) as [b1 r] eqn:E.
+      destruct (hrun b1 ops) as [b2 rs'] eqn:R. injection H as <- <-.
+      inversion F as [|? ? Fo Fr]; subst.
+      pose proof (IH _ _ _ _ _ Fr (hstep_nosign_inv _ _ _ _ _ _ Fo I E) R) as J.
+      now rewrite hist_ins_cons, hist_outs_cons, !app_assoc.
+  Qed.
+End HistoryNoSign.
+
+(* Any history of Add*Input / AddOutput / ComputeSignatureHashes calls in any order and number,
+   then one more computation and AddSignatures: if a transaction comes out, the hashes that were
+   signed are those of the final transaction and the engine accepts every input. *)
+Theorem history_signed_accepted :
+  forall (hash160 sha256 : bytes -> bytes) (der_strict : bytes -> bool)
+         (checksig : bytes -> bytes -> sighash -> bool)
+         (sigT : Type) (der : sigT -> bytes) (ecdsa_verify : bytes -> sighash -> sigT -> bool),
+    (forall x, length (hash160 x) = 20%nat) -> (forall x, length (sha256 x) = 32%nat) ->
+    (forall pk h sg, ecdsa_verify pk h sg = true ->
+                     sig_enc_ok der_strict (der sg) = true /\ checksig pk (der sg) h = true) ->
+    forall (pre : list (hop sigT)) (wins : list winput) (sigs : list (sigT * bytes)) b rs hs tx,
+      Forall (fun o => is_sign sigT o = false) pre ->
+      hist_ins sigT pre = map (to_input hash160 sha256) wins ->
+      Forall (fun w => wkind_wf (wi_kind w)) wins ->
+      hrun sigT der ecdsa_verify new_builder (pre ++ [HCompute; HSign sigs]) = (b, rs) ->
+      nth_error rs (length pre) = Some (RHashes hs) ->
+      nth_error rs (S (length pre)) = Some (RTx tx) ->
+      (forall i w sg pk, nth_error wins i = Some w -> nth_error sigs i = Some (sg, pk) ->
+                         compressed_pk pk = true /\ hash160 pk = committed_pkh (wi_kind w)) ->
+      tx_sighashes (hist_ins sigT pre) (hist_outs sigT pre) = Some hs /\
+      st_skel tx = tx_of (hist_ins sigT pre) (hist_outs sigT pre) /\
+      forall i w, nth_error wins i = Some w ->
+        exists si, nth_error (st_ins tx) i = Some si /\
+          verify_input hash160 sha256 der_strict checksig (st_skel tx) i
+                       (si_script si) (si_witness si)
+                       (in_script (to_input hash160 sha256 w)) (u_value (wi_utxo w)) = Accept.
+Proof.
+  intros hash160 sha256 der_strict checksig sigT der ecdsa_verify Hh Hs Hlib
+         pre wins sigs b rs hs tx NS Hins Wf H Nh Nt Hk.
+  pose proof (history_sighashes_fresh _ _ _ _ _ _ _ H) as Fr. rewrite Nh in Fr.
+  assert (Eh : tx_sighashes (hist_ins sigT pre) (hist_outs sigT pre) = Some hs).
+  { destruct (tx_sighashes (hist_ins sigT pre) (hist_outs sigT pre)); inversion Fr; reflexivity. }
+  clear Fr. rewrite hrun_app in H.
+  destruct (hrun sigT der ecdsa_verify new_builder pre) as [b1 r1] eqn:R1.
+  pose proof (hrun_length _ _ _ _ _ _ _ R1) as Len1.
+  assert (I : hinv' b1 (hist_ins sigT pre) (hist_outs sigT pre)).
+  { apply (hrun_nosign_inv _ _ _ _ _ [] [] _ _ NS) in R1; [exact R1|]. unfold hinv'. auto. }
+  cbn [C27.hrun C27.hstep] in H.
+  destruct (compute_hashes b1) as [b2|] eqn:C.
+  2:{ destruct (add_signatures_h sigT der ecdsa_verify b1 sigs) as [b3 r]. injection H as <- <-.
+      rewrite nth_error_app2, Len1, Nat.sub_diag in Nh by lia. discriminate. }
+  destruct (add_signatures_h sigT der ecdsa_verify b2 sigs) as [b3 r] eqn:A. injection H as <- <-.
+  rewrite nth_error_app2 in Nt by lia. rewrite Len1 in Nt.
+  replace (S (length pre) - length pre)%nat with 1%nat in Nt by lia. cbn in Nt.
+  injection Nt as ->. apply add_signatures_h_tx in A.
+  destruct I as (I1&I2&I3).
+  destruct (add_inputs_ok hash160 sha256 Hh Hs wins new_builder Wf) as [b0' B0].
+  set (outs := hist_outs sigT pre) in *.
+  set (b0 := fold_left (fun b o => add_output b (fst o) (snd o)) outs b0').
+  assert (Bld : build (map (to_input hash160 sha256) wins) outs = Some b0).
+  { unfold build. rewrite B0. reflexivity. }
+  destruct (build_shape _ _ _ Bld) as (S1&S2&S3&S4). rewrite <- Hins in S1, S2.
+  assert (Sk : skeleton b0 = skeleton b1).
+  { unfold skeleton. now rewrite S1, S3, I1, I3. }
+  assert (C0 : compute_hashes b0 = Some b2).
+  { unfold compute_hashes in C |- *. rewrite Sk, S2, <- I2.
+    destruct (hashes_from (skeleton b1) 0 (b_args b1)) as [hs'|]; [|discriminate].
+    injection C as <-. f_equal. apply builder_eta; cbn; congruence. }
+  split; [exact Eh|]. split.
+  - apply add_signatures_some in A as (_&_&l&_&->). cbn.
+    apply compute_hashes_fields in C as (E1&E2&E3&_).
+    apply hinv_skeleton. apply hinv'_hinv. unfold hinv'. rewrite E1, E2, E3. auto.
+  - exact (all_inputs_accepted hash160 sha256 der_strict checksig sigT der ecdsa_verify Hh Hs Hlib
+             wins outs sigs b0 b2 tx Wf Bld C0 A Hk).
+Qed.
+
+(* ---- an output added after the last computation (code as written) ---- *)
+Module StaleWitness.
+  (* signatures that are valid exactly for digests of a transaction with ONE output *)
+  Definition one_out (h : sighash) : bool := (length (tx_outs (sh_tx h)) =? 1)%nat.
+  Definition ev (_ : bytes) (h : sighash) (_ : unit) : bool := one_out h.
+  Definition cs (_ _ : bytes) (h : sighash) : bool := one_out h.
+  Definition w : winput := {| wi_utxo := Witness.u 2; wi_kind := WPkh true (repeat 7 20) |}.
+  Definition hist : list (hop unit) :=
+    [HAddIn (to_input Witness.h160 Witness.s256 w); HAddOut 9000 (ser (p2wpkh (repeat 7 20)));
+     HCompute; HAddOut 1000 (ser (p2wpkh (repeat 7 20))); HSign [(tt, Witness.pk)]].
+End StaleWitness.
+
+(* AddSignatures verifies the STORED hashes: with an output appended after the last computation
+   it still produces a transaction, and the engine rejects its input *)
+Theorem output_after_computation_refuted :
+  (forall pk h sg, StaleWitness.ev pk h sg = true ->
+                   sig_enc_ok Witness.yes1 (Witness.der sg) = true /\
+                   StaleWitness.cs pk (Witness.der sg) h = true) /\
+  exists b rs tx si,
+    hrun unit Witness.der StaleWitness.ev new_builder StaleWitness.hist = (b, rs) /\
+    nth_error rs 4 = Some (RTx tx) /\ nth_error (st_ins tx) 0 = Some si /\
+    length (tx_outs (st_skel tx)) = 2%nat /\
+    verify_input Witness.h160 Witness.s256 Witness.yes1 StaleWitness.cs (st_skel tx) 0
+                 (si_script si) (si_witness si)
+                 (in_script (to_input Witness.h160 Witness.s256 StaleWitness.w))
+                 (u_value (wi_utxo StaleWitness.w)) = Reject.
+Proof.
+  split; [intros pk h sg H; split; [reflexivity|exact H]|].
+  eexists. eexists. eexists. eexists.
+  split; [vm_compute; reflexivity|]. split; [reflexivity|]. split; [reflexivity|].
+  split; vm_compute; reflexivity.
+Qed.
+
+(* ---- the executable form for histories ---- *)
+Theorem hist_spec_ok_sound : forall c : hist_case,
+    Hist.spec_ok c = true ->
+    (hc_expect_valid c = true ->
+     Hist.last_is_tx (hc_obs c) = true /\ hc_final c <> [] /\
+     forall fi, In fi (hc_final c) -> fi_engine fi = Some true) /\
+    (hc_must_reject c = true -> Hist.last_is_tx (hc_obs c) = false) /\
+    (In BPanic (hc_obs c) -> Hist.input_after_compute (hc_ops c) (hc_obs c) false = true).
+Proof.
+  intros c H. unfold Hist.spec_ok in H.
+  apply andb_prop in H as [H H3]. apply andb_prop in H as [H1 H2]. split; [|split].
+  - intro E. rewrite E in H1. apply andb_prop in H1 as [H1 Q]. apply andb_prop in H1 as [P N].
+    split; [exact P|]. split; [destruct (hc_final c); [discriminate|discriminate]|].
+    intros fi Hfi. pose proof (forallb_In _ _ Q fi Hfi) as R. cbn beta in R.
+    destruct (fi_engine fi) as [[|]|]; [reflexivity|discriminate|discriminate].
+  - intro M. rewrite M in H2. destruct (Hist.last_is_tx (hc_obs c)); [discriminate|reflexivity].
+  - intro P.
+    assert (X : existsb (fun o => match o with BPanic => true | _ => false end) (hc_obs c) = true).
+    { apply existsb_exists. exists BPanic. auto. }
+    rewrite X in H3. exact H3.
+Qed.
+
+Theorem judge_any_agree_sound : forall c : any_case,
+    judge_any c = Agree ->
+    match c with
+    | CTx c => Concrete.spec_ok c = true /\ Concrete.agree c = true
+    | CHist c => Hist.spec_ok c = true /\ Hist.agree c = true
+    end.
+Proof.
+  intros [c|c] H; [exact (judge_agree_sound c H)|].
+  unfold judge_any, Hist.judge, decide in H.
+  destruct (Hist.unsupported c); [discriminate|].
+  destruct (Hist.spec_ok c); [|discriminate]. destruct (Hist.agree c); [auto|discriminate].
+Qed.
